@@ -192,10 +192,13 @@ class DensityMatrix(StateRepresentationBase):
 
             # conditional probability of the outcome: a sub-normalized state (e.g. after photon loss) keeps its trace
             total_weight = np.real(np.trace(self._data))
-            m, norm = projectors[outcome], probs[outcome] / total_weight
+            m = projectors[outcome]
 
             # this assumes that the projector, m, has the properties: m = sqrt(m) and m = m.dag()
-            self._data = (m @ self._data @ np.transpose(np.conjugate(m))) / norm
+            self._data = m @ self._data @ np.transpose(np.conjugate(m))
+            if total_weight > 0 and probs[outcome] > 0:
+                # (a state of zero weight, after a photon loss of rate 1, stays the zero matrix)
+                self._data = self._data / (probs[outcome] / total_weight)
 
         else:
             raise ValueError(
